@@ -606,7 +606,25 @@ func (fx *FuncExec) evalLoc(env *SpecEnv, e ast.Expr) *Loc {
 				}
 			}
 		}
-		base := fx.evalSpec(env, x.X)
+		var base Val
+		if id, ok := x.X.(*ast.Ident); ok && !env.calleeMode {
+			// a struct-typed local whose address escapes lives in the object heap: a location inside
+			// it is a field of that object
+			if _, bound := env.bind[id.Name]; !bound {
+				if as := fx.lookupLocal(env, id.Name); len(as) == 1 {
+					if v, ok := fx.vals[as[0]]; ok && v.S != "" && (v.Loc == nil || v.Loc.Kind != LCell) {
+						if pt, ok := v.T.Underlying().(*types.Pointer); ok {
+							if _, isS := pt.Elem().Underlying().(*types.Struct); isS {
+								base = v
+							}
+						}
+					}
+				}
+			}
+		}
+		if base.T == nil {
+			base = fx.evalSpec(env, x.X)
+		}
 		name := x.Sel.Name
 		if strings.HasPrefix(name, ghostPrefix) {
 			g := strings.TrimPrefix(name, ghostPrefix)
@@ -867,6 +885,13 @@ func (fx *FuncExec) evalSpecCall(env *SpecEnv, x *ast.CallExpr) Val {
 			return bv(h)
 		}
 		return bv("false")
+	case "disjoint":
+		// disjoint(a, b): the two slices do not share a backing array (or one of them has none)
+		a, b := fx.evalSpec(env, x.Args[0]), fx.evalSpec(env, x.Args[1])
+		if a.Sort != SSlice || b.Sort != SSlice {
+			fx.specFail(env, "disjoint(slice, slice)")
+		}
+		return bv(or(eq("(s.arr "+a.S+")", "0"), eq("(s.arr "+b.S+")", "0"), not(eq("(s.arr "+a.S+")", "(s.arr "+b.S+")"))))
 	case "bytesof":
 		// bytesof(s, x): the string s consists of exactly the bytes of the byte slice x
 		a, b := fx.evalSpec(env, x.Args[0]), fx.evalSpec(env, x.Args[1])
